@@ -170,8 +170,19 @@ func (t *CallableType) Default() px.Type {
 }
 
 func (t *CallableType) Equals(o interface{}, g px.Guard) bool {
-	_, ok := o.(*CallableType)
-	return ok
+	if ot, ok := o.(*CallableType); ok {
+		return optTypeEquals(t.paramsType, ot.paramsType, g) && optTypeEquals(t.returnType, ot.returnType, g) &&
+			optTypeEquals(t.blockType, ot.blockType, g)
+	}
+	return false
+}
+
+// optTypeEquals compares two types either of which may be absent
+func optTypeEquals(a, b px.Type, g px.Guard) bool {
+	if a == nil || b == nil {
+		return a == nil && b == nil
+	}
+	return a.Equals(b, g)
 }
 
 func (t *CallableType) Generic() px.Type {
